@@ -936,6 +936,12 @@ def ev_call(ctx, node, env):
             vals = [fold_bool(x) for x in args[0][1:]]
             if all(v[0] == "bool" for v in vals):
                 return ("bool", (all if name == "all" else any)(v[1] for v in vals))
+        if name in ("sorted", "list", "tuple", "max", "min") and len(args) == 1 and args[0][0] == "dict":
+            args = [("list",) + tuple(k for k, _ in args[0][1])]      # iterating a dict yields its keys
+            if name in ("max", "min") and all(x[0] == "num" for x in args[0][1:]) and len(args[0]) > 1:
+                return (max if name == "max" else min)(args[0][1:], key=lambda x: x[1])
+            if name in ("list", "tuple"):
+                return (name,) + tuple(args[0][1:])
         if name == "sorted" and len(args) == 1 and not kws and args[0][0] in ("tuple", "list") and all(x[0] == "num" for x in args[0][1:]):
             return ("list",) + tuple(sorted(args[0][1:], key=lambda x: x[1]))
         if name == "len" and len(args) == 1 and args[0][0] in ("tuple", "list"):
